@@ -2470,9 +2470,16 @@ impl<'a, B: Bindgen> Generator<'a, B> {
                     self.emit(&GuestDeallocateVariant { blocks: 2 });
                 }
 
+                // discard the operands on the stack (one per 32 flags),
+                // otherwise nothing to free.
+                TypeDefKind::Flags(f) => {
+                    for _ in 0..f.repr().count() {
+                        self.stack.pop().unwrap();
+                    }
+                }
+
                 // discard the operand on the stack, otherwise nothing to free.
-                TypeDefKind::Flags(_)
-                | TypeDefKind::Enum(_)
+                TypeDefKind::Enum(_)
                 | TypeDefKind::Future(_)
                 | TypeDefKind::Stream(_)
                 | TypeDefKind::Handle(Handle::Own(_))
